@@ -66,6 +66,29 @@ class Closure:
         self.node, self.env = node, env
 
 
+class Ref:
+    """A mutable place holding a scalar: (container dict / list, key).  Structs, enums and lists are shared objects already."""
+    __slots__ = ("c", "k")
+
+    def __init__(self, c, k):
+        self.c, self.k = c, k
+
+    def get(self):
+        try:
+            return self.c[self.k]
+        except (KeyError, IndexError):
+            return UNKNOWN
+
+    def set(self, v):
+        self.c[self.k] = v
+
+
+def deref(v):
+    while isinstance(v, Ref):
+        v = v.get()
+    return v
+
+
 class Iter:
     """Iterator state over a list value (the only heap object of the evaluator)."""
     def __init__(self, items):
@@ -81,6 +104,17 @@ class FnItem:
 
 
 ORDERING = "core::cmp::Ordering"
+RESULT = "core::result::Result"
+CONTROL_FLOW = "core::ops::control_flow::ControlFlow"
+
+
+def ok(v):
+    return Enum(RESULT, "Ok", {"0": v})
+
+
+def err(v):
+    return Enum(RESULT, "Err", {"0": v})
+
 OPTION = "core::option::Option"
 
 
@@ -151,26 +185,33 @@ class PEval:
             return r.v
 
     # -------------------------------------------------------------------------------------------------
-    def match(self, p, v, env):
-        """True / False / UNKNOWN; binds into env on the way."""
+    def match(self, p, v, env, place=None):
+        """True / False / UNKNOWN; binds into env on the way.  `place` = (container, key) of v when it sits in a field,
+        so that a by-reference binding of a scalar can be written through."""
         k = p.get("k")
+        if isinstance(v, Ref) and k not in ("Wild", "Bind"):
+            place = (v.c, v.k)
+            v = deref(v)
         if k == "Wild":
             return True
         if k == "Bind":
             if "sub" in p:
-                r = self.match(p["sub"], v, env)
+                r = self.match(p["sub"], v, env, place)
                 if r is not True:
                     return r
-            env[p["var"]] = v
+            if p.get("byref") and place is not None and not isinstance(v, (Struct, Enum, list, Ref)):
+                env[p["var"]] = Ref(place[0], place[1])
+            else:
+                env[p["var"]] = v
             return True
         if k in ("Deref", "DerefPattern"):
-            return self.match(p["sub"], v, env)
+            return self.match(p["sub"], v, env, place)
         if k == "Guard":
-            return self.match(p["sub"], v, env)
+            return self.match(p["sub"], v, env, place)
         if k == "Or":
             unk = False
             for s in p["subs"]:
-                r = self.match(s, v, env)
+                r = self.match(s, v, env, place)
                 if r is True:
                     return True
                 if r is UNKNOWN:
@@ -188,7 +229,7 @@ class PEval:
             res = True
             for s in p["subs"]:
                 fv = v.fields.get(s["f"], UNKNOWN)
-                r = self.match(s["p"], fv, env)
+                r = self.match(s["p"], fv, env, (v.fields, s["f"]))
                 if r is False:
                     return False
                 if r is UNKNOWN:
@@ -197,13 +238,15 @@ class PEval:
         if k == "Leaf":
             res = True
             for s in p["subs"]:
+                pl = None
                 if isinstance(v, (Struct, Enum)):
                     fv = v.fields.get(s["f"], UNKNOWN)
+                    pl = (v.fields, s["f"])
                 elif isinstance(v, tuple) and v is not UNIT and str(s["f"]).isdigit() and int(s["f"]) < len(v):
                     fv = v[int(s["f"])]
                 else:
                     fv = UNKNOWN
-                r = self.match(s["p"], fv, env)
+                r = self.match(s["p"], fv, env, pl)
                 if r is False:
                     return False
                 if r is UNKNOWN:
@@ -267,6 +310,13 @@ class PEval:
         if self.fuel < 0:
             raise OutOfFuel()
         k = e.get("k")
+        if k == "Deref":
+            return deref(self.ev(e["e"], env, depth))
+        if k in ("Borrow", "RawBorrow") and e.get("mut"):
+            r = self.place_ref(e["e"], env, depth)
+            if r is not None:
+                return r
+            return self.ev(e["e"], env, depth)
         if k in PASS or k == "Cast":
             return self.ev(e["e"], env, depth)
         if k == "Lit":
@@ -309,6 +359,8 @@ class PEval:
             return self.cond(e, env, depth)
         if k == "Match":
             v = self.ev(e["scrut"], env, depth)
+            if isinstance(v, Ref) and isinstance(v.get(), (Struct, Enum, list)):
+                v = v.get()
             src = str(e.get("src", ""))
             for arm in e["arms"]:
                 sub = dict(env)
@@ -351,7 +403,7 @@ class PEval:
                 return -v
             return UNKNOWN
         if k == "Binary":
-            l, r = self.ev(e["l"], env, depth), self.ev(e["r"], env, depth)
+            l, r = deref(self.ev(e["l"], env, depth)), deref(self.ev(e["r"], env, depth))
             return self.binop(e.get("op"), l, r)
         if k == "Return":
             raise _Ret(self.ev(e["e"], env, depth) if "e" in e else UNIT)
@@ -369,19 +421,13 @@ class PEval:
                     continue
             return self.unknown("loop bound")
         if k == "Assign":
-            l = e["l"]
-            while l.get("k") in PASS:
-                l = l["e"]
-            v = self.ev(e["r"], env, depth)
-            if l.get("k") == "Var":
-                env[l["var"]] = v
+            v = deref(self.ev(e["r"], env, depth))
+            self.store(e["l"], v, env, depth)
             return UNIT
         if k == "AssignOp":
-            l = e["l"]
-            while l.get("k") in PASS:
-                l = l["e"]
-            if l.get("k") == "Var":
-                env[l["var"]] = self.binop(e.get("op"), env.get(l["var"], UNKNOWN), self.ev(e["r"], env, depth))
+            cur = deref(self.ev(e["l"], env, depth))
+            op = str(e.get("op", "")).replace("Assign", "")
+            self.store(e["l"], self.binop(op, cur, deref(self.ev(e["r"], env, depth))), env, depth)
             return UNIT
         if k == "Tuple":
             return tuple(self.ev(x, env, depth) for x in e["es"]) if e["es"] else UNIT
@@ -393,13 +439,29 @@ class PEval:
                 return Enum(e["adt"], e["variant"], fields)
             return Struct(e["adt"], fields)
         if k == "Field":
-            v = self.ev(e["e"], env, depth)
+            v = deref(self.ev(e["e"], env, depth))
             f = e.get("f", e.get("name"))
             if isinstance(v, (Struct, Enum)):
                 return v.fields.get(str(f), UNKNOWN)
             if isinstance(v, tuple) and v is not UNIT and str(f).isdigit() and int(f) < len(v):
                 return v[int(f)]
             return UNKNOWN
+        if k == "Const":
+            c = self.lib.consts.get(e.get("def", "")) if hasattr(self.lib, "consts") else None
+            if c is not None and c.get("thir") and c["thir"].get("body"):
+                try:
+                    return self.ev(c["thir"]["body"], {}, depth + 1)
+                except _Ret as r:
+                    return r.v
+            return self.unknown("constant " + str(e.get("def")))
+        if k == "Index":
+            obj = deref(self.ev(e["e"], env, depth))
+            i = deref(self.ev(e["i"], env, depth))
+            if isinstance(obj, Iter):
+                obj = obj.rest()
+            if isinstance(obj, list) and isinstance(i, int) and 0 <= i < len(obj):
+                return obj[i]
+            return self.unknown("index")
         if k == "Closure":
             return Closure(e, env)
         if k == "Zst":
@@ -410,11 +472,76 @@ class PEval:
             return self.call(e, env, depth)
         return self.unknown("unsupported node " + str(k))
 
+    def place_ref(self, e, env, depth):
+        """Ref for `&mut <place>` when the place holds a scalar (objects are shared already); None otherwise."""
+        while e.get("k") in ("Use", "Scope"):
+            e = e["e"]
+        k = e.get("k")
+        if k == "Var":
+            v = env.get(e["var"], UNKNOWN)
+            if isinstance(v, (Struct, Enum, list, Ref, Iter)) or v is UNKNOWN:
+                return None
+            return Ref(env, e["var"])
+        if k == "Deref":
+            inner = self.ev(e["e"], env, depth)
+            if isinstance(inner, Ref):
+                return inner
+            return None
+        if k == "Field":
+            obj = deref(self.ev(e["e"], env, depth))
+            f = str(e.get("f", e.get("name")))
+            if isinstance(obj, (Struct, Enum)):
+                cur = obj.fields.get(f, UNKNOWN)
+                if isinstance(cur, (Struct, Enum, list, Iter)):
+                    return None
+                return Ref(obj.fields, f)
+        return None
+
+    def store(self, l, v, env, depth):
+        while l.get("k") in ("Use", "Scope", "Borrow", "Coerce"):
+            l = l["e"]
+        k = l.get("k")
+        if k == "Var":
+            cur = env.get(l["var"])
+            env[l["var"]] = v
+            return
+        if k == "Deref":
+            inner = self.ev(l["e"], env, depth)
+            if isinstance(inner, Ref):
+                inner.set(v)
+                return
+            inner = deref(inner)
+            if isinstance(inner, (Struct, Enum)) and isinstance(v, type(inner)):
+                # `*self = value`: overwrite the shared object in place
+                if isinstance(inner, Enum):
+                    inner.adt, inner.variant = v.adt, v.variant
+                inner.fields = dict(v.fields)
+                return
+            if isinstance(inner, list) and isinstance(v, list):
+                inner[:] = v
+                return
+            self.unknown("store through unknown reference")
+            return
+        if k == "Field":
+            obj = deref(self.ev(l["e"], env, depth))
+            if isinstance(obj, (Struct, Enum)):
+                obj.fields[str(l.get("f", l.get("name")))] = v
+                return
+            self.unknown("store to a field of an unknown value")
+            return
+        if k == "Index":
+            obj = deref(self.ev(l["e"], env, depth))
+            i = deref(self.ev(l["i"], env, depth))
+            if isinstance(obj, list) and isinstance(i, int) and 0 <= i < len(obj):
+                obj[i] = v
+                return
+        self.unknown("store to unsupported place " + str(k))
+
     def is_enum(self, adt):
         a = self.lib.adts.get(adt)
         if a is not None:
             return a.get("kind") == "enum"
-        return adt in (OPTION, ORDERING, "core::result::Result")
+        return adt in (OPTION, ORDERING, RESULT, CONTROL_FLOW)
 
     def cond(self, e, env, depth):
         while e.get("k") in PASS:
@@ -503,10 +630,32 @@ class PEval:
 
     def call_named(self, path, fname, args, node, depth):
         if self.hook is not None:
-            r = self.hook(self, path, fname, args, node)
+            r = self.hook(self, path, fname, [deref(a) for a in args], node)
             if r is not NotImplemented:
                 return r
-        a0 = args[0] if args else UNKNOWN
+        # Clone / PartialEq are structural whatever their (usually derived) bodies look like
+        if fname in ("clone", "to_owned") and len(args) == 1 and ("Clone" in path or "ToOwned" in path or "clone::" in path):
+            import copy
+            v0 = deref(args[0])
+            return copy.deepcopy(v0) if isinstance(v0, (Struct, Enum, list)) else v0
+        if fname in ("eq", "ne") and len(args) == 2 and ("PartialEq" in path or "cmp::" in path):
+            l_, r_ = deref(args[0]), deref(args[1])
+            if l_ is UNKNOWN or r_ is UNKNOWN:
+                return UNKNOWN
+            return (l_ == r_) if fname == "eq" else (l_ != r_)
+        if fname == "into" and len(args) == 1 and node is not None and "convert::Into" in path and node.get("args"):
+            # `x.into()` goes through core's blanket impl: resolve the local `impl From<X> for Y` from the static types
+            ty_to = self.lib.ty_str(self.lib.strip_refs(node["t"]))
+            ty_from = self.lib.ty_str(self.lib.strip_refs(node["args"][0]["t"]))
+            if ty_to == ty_from:
+                return deref(args[0])
+            cand = self.lib.fn("<%s as core::convert::From<%s>>::from" % (ty_to, ty_from))
+            if cand is not None and thir.body_of(cand):
+                return self.call_fn(cand, args, depth + 1)
+        local = self.lib.fn(path)
+        if not (local is not None and thir.body_of(local)):
+            args = [deref(a) for a in args]
+        a0 = deref(args[0]) if args else UNKNOWN
         is_std = path.startswith(("core::", "alloc::", "std::", "<")) and "nodes::" not in path.split(" as ")[0]
         local = self.lib.fn(path)
         if local is not None and thir.body_of(local):
@@ -533,6 +682,28 @@ class PEval:
                 return False
             if re.fullmatch(r"[iu](8|16|32|64|128|size)", t or ""):
                 return 0
+        if fname in ("clone", "to_owned", "cloned") and len(args) == 1 and isinstance(a0, (Struct, Enum, list)):
+            import copy
+            return copy.deepcopy(a0)
+        if fname in ("new", "default", "with_capacity") and ("::vec::Vec" in path or "VecDeque" in path) :
+            return []
+        if isinstance(a0, list) and fname in ("push", "push_back") and len(args) == 2:
+            a0.append(args[1])
+            return UNIT
+        if isinstance(a0, list) and fname == "extend" and len(args) == 2:
+            other = args[1].rest() if isinstance(args[1], Iter) else args[1]
+            if isinstance(other, list):
+                a0.extend(other)
+                return UNIT
+            return self.unknown("extend with unknown iterable")
+        if isinstance(a0, list) and fname == "insert" and len(args) == 3 and isinstance(args[1], int):
+            a0.insert(args[1], args[2])
+            return UNIT
+        if isinstance(a0, list) and fname == "pop" and len(args) == 1:
+            return some(a0.pop()) if a0 else NONE
+        if isinstance(a0, list) and fname == "clear":
+            del a0[:]
+            return UNIT
         if fname in ITER_CALLS and len(args) == 1:
             if isinstance(a0, list):
                 return Iter(a0)
@@ -566,10 +737,73 @@ class PEval:
             return not a0
         if fname in ("eq", "ne", "lt", "le", "gt", "ge") and len(args) == 2:
             return self.binop(fname.capitalize(), args[0], args[1])
-        if fname == "cmp" and len(args) == 2 and all(isinstance(x, int) for x in args):
+        if fname == "cmp" and len(args) == 2 and (all(isinstance(x, int) for x in args) or all(isinstance(x, str) for x in args)):
             return ordering(args[0], args[1])
+        if fname == "index" and len(args) == 2 and isinstance(a0, list) and isinstance(args[1], int) and "ops::index" in path:
+            return a0[args[1]] if 0 <= args[1] < len(a0) else self.unknown("index out of range")
+        if isinstance(a0, Enum) and a0.adt == RESULT:
+            inner = a0.fields.get("0", UNKNOWN)
+            if fname == "branch":
+                return Enum(CONTROL_FLOW, "Continue", {"0": inner}) if a0.variant == "Ok" else Enum(CONTROL_FLOW, "Break", {"0": a0})
+            if fname == "is_ok":
+                return a0.variant == "Ok"
+            if fname == "is_err":
+                return a0.variant == "Err"
+            if fname == "ok":
+                return some(inner) if a0.variant == "Ok" else NONE
+            if fname in ("unwrap", "expect") and a0.variant == "Ok":
+                return inner
+            if fname == "map" and len(args) == 2:
+                return Enum(RESULT, "Ok", {"0": self.apply(args[1], [inner], depth)}) if a0.variant == "Ok" else a0
+            if fname == "map_err" and len(args) == 2:
+                return a0 if a0.variant == "Ok" else Enum(RESULT, "Err", {"0": self.apply(args[1], [inner], depth)})
+            if fname == "and_then" and len(args) == 2:
+                return self.apply(args[1], [inner], depth) if a0.variant == "Ok" else a0
+            if fname == "unwrap_or_default" and a0.variant == "Ok":
+                return inner
+        if fname == "branch" and isinstance(a0, Enum) and a0.adt == OPTION:
+            return Enum(CONTROL_FLOW, "Continue", {"0": a0.fields.get("0", UNKNOWN)}) if a0.variant == "Some" else Enum(CONTROL_FLOW, "Break", {"0": NONE})
+        if fname == "from_residual" and len(args) == 1:
+            return a0
+        if isinstance(a0, list) and fname in ("sort", "sort_unstable") and len(args) == 1:
+            try:
+                a0.sort()
+                return UNIT
+            except TypeError:
+                return self.unknown("sort of non-comparable values")
+        if isinstance(a0, list) and fname in ("sort_by", "sort_unstable_by") and len(args) == 2:
+            import functools
+            bad = []
+
+            def cmp_(x, y):
+                r = self.apply(args[1], [x, y], depth)
+                if isinstance(r, Enum) and r.adt == ORDERING:
+                    return {"Less": -1, "Equal": 0, "Greater": 1}[r.variant]
+                bad.append(1)
+                return 0
+            a0.sort(key=functools.cmp_to_key(cmp_))
+            return self.unknown("sort_by comparator") if bad else UNIT
+        if isinstance(a0, list) and fname in ("sort_by_key", "sort_unstable_by_key", "sort_by_cached_key") and len(args) == 2:
+            try:
+                a0.sort(key=lambda x: self.apply(args[1], [x], depth))
+                return UNIT
+            except TypeError:
+                return self.unknown("sort key")
         if fname == "partial_cmp" and len(args) == 2 and all(isinstance(x, int) for x in args):
             return some(ordering(args[0], args[1]))
+        if all(isinstance(x, int) and not isinstance(x, bool) for x in args) and args:
+            a_, b_ = args[0], (args[1] if len(args) > 1 else None)
+            if b_ is not None:
+                if fname in ("saturating_add_signed", "saturating_add", "wrapping_add", "add"):
+                    return max(a_ + b_, 0) if "saturating" in fname else a_ + b_
+                if fname in ("saturating_sub", "wrapping_sub", "sub"):
+                    return max(a_ - b_, 0) if "saturating" in fname else a_ - b_
+                if fname in ("checked_add", "checked_add_signed"):
+                    return some(a_ + b_) if a_ + b_ >= 0 else NONE
+                if fname == "checked_sub":
+                    return some(a_ - b_) if a_ - b_ >= 0 else NONE
+            elif fname in ("abs", "unsigned_abs"):
+                return abs(a_)
         if fname in ("max", "min") and len(args) == 2 and all(isinstance(x, int) and not isinstance(x, bool) for x in args):
             return max(args) if fname == "max" else min(args)
         if isinstance(a0, Enum) and a0.adt == OPTION:
@@ -629,10 +863,73 @@ class PEval:
                 return len(a0) == 0
             if fname in ("len", "count"):
                 return len(a0)
-            if fname in ("first", "next"):
+            if fname in ("first", "next", "first_mut"):
                 return some(a0[0]) if a0 else NONE
-            if fname == "last":
+            if fname in ("last", "last_mut"):
                 return some(a0[-1]) if a0 else NONE
+            if fname in ("get", "get_mut") and len(args) == 2 and isinstance(args[1], int):
+                return some(a0[args[1]]) if 0 <= args[1] < len(a0) else NONE
+            if fname == "remove" and len(args) == 2 and isinstance(args[1], int) and 0 <= args[1] < len(a0):
+                return a0.pop(args[1])
+            if fname == "truncate" and len(args) == 2 and isinstance(args[1], int):
+                del a0[args[1]:]
+                return UNIT
+            if fname == "retain" and len(args) == 2:
+                keep = []
+                for x in list(a0):
+                    r = self.truth(self.apply(args[1], [x], depth))
+                    if r is UNKNOWN:
+                        return self.unknown("retain predicate")
+                    if r:
+                        keep.append(x)
+                a0[:] = keep
+                return UNIT
+            if fname == "contains" and len(args) == 2:
+                if args[1] is UNKNOWN or any(x is UNKNOWN for x in a0):
+                    return UNKNOWN
+                return args[1] in a0
+            if fname in ("find", "position") and len(args) == 2:
+                for i, x in enumerate(a0):
+                    r = self.truth(self.apply(args[1], [x], depth))
+                    if r is UNKNOWN:
+                        return UNKNOWN
+                    if r:
+                        return some(x if fname == "find" else i)
+                return NONE
+            if fname == "find_map" and len(args) == 2:
+                for x in a0:
+                    r = self.apply(args[1], [x], depth)
+                    if not (isinstance(r, Enum) and r.adt == OPTION):
+                        return self.unknown("find_map closure result")
+                    if r.variant == "Some":
+                        return r
+                return NONE
+            if fname in ("rfind", "rposition") and len(args) == 2:
+                for i in range(len(a0) - 1, -1, -1):
+                    r = self.truth(self.apply(args[1], [a0[i]], depth))
+                    if r is UNKNOWN:
+                        return UNKNOWN
+                    if r:
+                        return some(a0[i] if fname == "rfind" else i)
+                return NONE
+            if fname in ("fold", "rfold") and len(args) == 3:
+                acc = args[1]
+                for x in (a0 if fname == "fold" else reversed(a0)):
+                    acc = self.apply(args[2], [acc, x], depth)
+                return acc
+            if fname == "for_each" and len(args) == 2:
+                for x in a0:
+                    self.apply(args[1], [x], depth)
+                return UNIT
+            if fname == "enumerate":
+                return [(i, x) for i, x in enumerate(a0)]
+            if fname == "zip" and len(args) == 2 and isinstance(args[1], (Iter, list)):
+                other = args[1].rest() if isinstance(args[1], Iter) else args[1]
+                return [(x, y) for x, y in zip(a0, other)]
+            if fname == "skip" and len(args) == 2 and isinstance(args[1], int):
+                return a0[args[1]:]
+            if fname == "take" and len(args) == 2 and isinstance(args[1], int):
+                return a0[:args[1]]
             if fname in ("any", "all") and len(args) == 2:
                 unk = False
                 for x in a0:
@@ -648,6 +945,36 @@ class PEval:
                 return a0 + args[1]
             if fname in ("map",) and len(args) == 2:
                 return [self.apply(args[1], [x], depth) for x in a0]
+            if fname == "flat_map" and len(args) == 2:
+                out = []
+                for x in a0:
+                    r = self.apply(args[1], [x], depth)
+                    r = r.rest() if isinstance(r, Iter) else r
+                    if isinstance(r, Enum) and r.adt == OPTION:
+                        r = [r.fields.get("0", UNKNOWN)] if r.variant == "Some" else []
+                    if not isinstance(r, list):
+                        return self.unknown("flat_map closure result")
+                    out.extend(r)
+                return out
+            if fname == "filter_map" and len(args) == 2:
+                out = []
+                for x in a0:
+                    r = self.apply(args[1], [x], depth)
+                    if not (isinstance(r, Enum) and r.adt == OPTION):
+                        return self.unknown("filter_map closure result")
+                    if r.variant == "Some":
+                        out.append(r.fields.get("0", UNKNOWN))
+                return out
+            if fname == "flatten":
+                out = []
+                for x in a0:
+                    x = x.rest() if isinstance(x, Iter) else x
+                    if isinstance(x, Enum) and x.adt == OPTION:
+                        x = [x.fields.get("0", UNKNOWN)] if x.variant == "Some" else []
+                    if not isinstance(x, list):
+                        return self.unknown("flatten element")
+                    out.extend(x)
+                return out
             if fname in ("filter",) and len(args) == 2:
                 out = []
                 for x in a0:
